@@ -12,11 +12,11 @@ CHECKS = {
  "C03": ("explicit-state BFS over the real contract in a chain simulator, token-factory supply / balances / IBC deliveries on every state and stake, stray callbacks on near-miss channels, both builds", "3"),
  "C04": ("exhaustive grids over the two rate functions (small cube, 131^3 boundary lattice up to 2^128, quotient lattice around word boundaries) against independent 256-bit arithmetic; execute-level min/zero/expected/multi-coin grid; execute-level resume->stake->unstake->submit lattice; BFS history monitor on every stake/submit incl. batches of 120 and 1100 requesters", "3"),
  "C05": ("explicit-state BFS over all withdrawal orders (plain and with funds attached) against a reference request table; scripted crowded batches (120 / 1100 requesters) and long histories (150 batches) judged step by step; legacy batches without request counter", "3"),
- "C06": ("explicit-state BFS with deadline-boundary time alphabet (sub-second block times) against a reference lifecycle, cross-checked by a second engine; deployed-bytes comparison on pinned stores; storage-read count of SubmitBatch against the number of requesters", "3"),
+ "C06": ("explicit-state BFS with deadline-boundary time alphabet (sub-second block times) against a reference lifecycle (fixed-amount plan plus a full-exit plan in which the due batch holds the whole LST supply), cross-checked by a second engine; deployed-bytes comparison on pinned stores; storage-read count of SubmitBatch against the number of requesters", "3"),
  "C07": ("exhaustive fault enumeration (ack ok/err/timeout/submit failure/stray and near-miss-channel acks/reply faults/recoveries of every shape incl. ordered id lists with repeats, 32-byte receivers, 140 refundable packets) inside the BFS against a reference packet table, cross-checked by a second engine", "3"),
  "C08": ("per-state probe battery (14 message kinds x ~35 principals incl. every configured address, twelve monitors, chain-level creator and migration admin, hook accounts through respelt channels) on every state of an exhaustive BFS that changes admin, monitors, staker, collector and channel; Withdraw callers; legacy batches without request counter", "3"),
  "C09": ("exhaustive grid of derive_intermediate_sender against a hand-written ibc-hooks derivation (python-pinned known answer) incl. 200/700-byte senders, all accepted (channel,sender) pairs for injectivity, execute-level grid over every accepted spelling of channel x staker x collector x configured prefix, end-to-end through the simulator's own ibc-hooks in a BFS that moves channel/staker/collector", "3"),
- "C10": ("per-state differential probes on every state of an exhaustive BFS (incl. stores with foreign history and left-over reply bookkeeping, a team of twelve monitors): the halted twin must refuse what the un-halted state accepts, raw storage diff of halt/resume, resume argument grid, fresh instances under 6 configurations, halted flag across all migration paths", "3"),
+ "C10": ("per-state differential probes on every state of an exhaustive BFS (incl. stores with foreign history and left-over reply bookkeeping, a team of twelve monitors): the halted twin must refuse what the un-halted state accepts, raw storage diff of halt/resume, every non-resume message of the battery on every halted state (flag must stay set), resume argument grid, fresh instances under 6 configurations, halted flag across all migration paths", "3"),
  "C11": ("exhaustive grid reward x fee rate (incl. quotient points around word boundaries) x treasury x sender x configuration history, plus explicit-state BFS over reward/fee-config/withdraw histories, with independent fee arithmetic", "3"),
  "C12": ("complete BFS over nominate/revoke/accept by 4 principals with 7d-1s/7d/7d+1s time moves x sub-second parts, four chain ids, interleaved unrelated admin operations and code upgrades, both contracts, in lock-step with a 3-variable reference machine; cross-checked by a second engine", "3"),
  "C13": ("exhaustive grids: all allow-lists (<=2 routes of <=2 hops) x all candidate routes (<=3 hops) x coins x limits x senders; denom-spelling shape grid; allow-listed routes of 3-5 hops x every candidate one or two edits away; spend and update grids on a funded treasury behind a bank querier; emitted messages decoded by an independent protobuf reader", "3"),
